@@ -1165,6 +1165,21 @@ def _unflatten_wrappers(wrappers: list[DataclassWrapper]) -> list[DataclassWrapp
     return [w for w in wrappers if w.parent is None]
 
 
+def _is_at_default(wrapper: DataclassWrapper, value: Any) -> bool:
+    """Returns whether all the fields of `value` (the nested member created for `wrapper`) are at their
+    default value."""
+    if value is None:
+        return True
+    if not dataclasses.is_dataclass(value):
+        return False
+    # NOTE: the value of a subgroup field is the chosen dataclass, which is one of the children.
+    return all(
+        getattr(value, field_wrapper.name) == field_wrapper.default
+        for field_wrapper in wrapper.fields
+        if not field_wrapper.is_subgroup
+    ) and all(_is_at_default(child, getattr(value, child.name)) for child in wrapper._children)
+
+
 def _create_dataclass_instance(
     wrapper: DataclassWrapper[DataclassT],
     constructor: Callable[..., DataclassT],
@@ -1194,13 +1209,10 @@ def _create_dataclass_instance(
                 # Break, and return the instance.
                 break
         else:
-            # A nested member that is `None` by default too and that was created anyway also means that an
-            # argument was passed (for one of its fields).
-            if not any(
-                child.optional
-                and child.default is None
-                and all(default in (None, argparse.SUPPRESS) for default in child.defaults)
-                and constructor_args.get(child.name) is not None
+            # The same has to hold for the nested members: an argument passed for a field of a nested member
+            # is an argument passed for this one too.
+            if all(
+                _is_at_default(child, constructor_args.get(child.name))
                 for child in wrapper._children
             ):
                 logger.debug(
